@@ -29,7 +29,8 @@ pub fn meta_path(rng: &mut Rng) -> String {
         if i > 0 {
             s.push_str("::");
         }
-        if i == 0 && rng.chance(1, 10) && !s.starts_with("::") {
+        // (a keyword first segment may also follow a leading `::`: still "a path starting with `::`")
+        if i == 0 && rng.chance(1, 10) {
             s.push_str(*rng.pick(&["crate", "self", "super"]));
         } else {
             s.push_str(&ident(rng));
